@@ -5,6 +5,7 @@ package main
 import (
 	"bytes"
 	"context"
+	"crypto/sha512"
 	"errors"
 	"fmt"
 	"io"
@@ -15,6 +16,8 @@ import (
 	"strings"
 	"sync"
 	"sync/atomic"
+	"time"
+	_ "time/tzdata"
 
 	"github.com/jdillenkofer/pithos/internal/auditlog"
 	"github.com/jdillenkofer/pithos/internal/auditlog/signing"
@@ -31,6 +34,67 @@ type c26 struct{}
 func init() { register("C26", c26{}) }
 
 func (c26) Parallel() bool { return true }
+
+// ---------------------------------------------------------------- process-local time zone (time.Local is process-global)
+// Cases carry the zone the server process runs in. Cases of the same zone may run concurrently; a switch waits until
+// nobody is inside. A zone token "A>B" (write in A, reopen/verify in B) runs exclusively.
+var c26Zones = []string{"UTC", "Etc/GMT-2", "Pacific/Marquesas", "America/New_York", "Australia/Lord_Howe", "Asia/Kathmandu"}
+
+var (
+	c26ZoneMu    sync.Mutex
+	c26ZoneCond  = sync.NewCond(&c26ZoneMu)
+	c26ZoneCur   = "\x00initial"
+	c26ZoneUsers int
+	c26ZoneExcl  bool
+)
+
+func c26LoadZone(z string) *time.Location {
+	loc, err := time.LoadLocation(z)
+	if err != nil {
+		panic("c26: cannot load zone " + z + ": " + err.Error())
+	}
+	return loc
+}
+
+// returns the leave function
+func c26EnterZone(z string) func() {
+	excl := strings.Contains(z, ">")
+	anyZone := z == "" // zone-agnostic case: runs in whatever zone is current, but never during a switch
+	c26ZoneMu.Lock()
+	for c26ZoneUsers > 0 && (excl || c26ZoneExcl || (!anyZone && c26ZoneCur != z)) {
+		c26ZoneCond.Wait()
+	}
+	if anyZone {
+		// keep the current zone
+	} else if excl {
+		c26ZoneCur = "\x00excl"
+	} else if c26ZoneCur != z {
+		time.Local = c26LoadZone(z)
+		c26ZoneCur = z
+	}
+	c26ZoneExcl = excl
+	c26ZoneUsers++
+	c26ZoneMu.Unlock()
+	return func() {
+		c26ZoneMu.Lock()
+		c26ZoneUsers--
+		if c26ZoneUsers == 0 {
+			c26ZoneExcl = false
+			c26ZoneCond.Broadcast()
+		}
+		c26ZoneMu.Unlock()
+	}
+}
+
+// instants worth trying: second boundaries, zero / non-zero nanoseconds, DST switches, far past / future
+var c26Instants = []int64{0, 1, -1, 999999999, 1000000000, 1000000001, -1000000000, -999999999, 500000000,
+	1710054000000000000, 1710053999999999999, 1710054000000000001, // 2024-03-10 07:00:00Z: New York springs forward
+	1730613600000000000, 1730613599999999999, // 2024-11-03 06:00:00Z: New York falls back
+	1728142200000000000, 1728142199999999999, // 2024-10-05 15:30:00Z: Lord Howe +10:30 -> +11
+	1700000000000000000, 1700000000123000000, 1700000000000000001, 1700000000999999999,
+	1704067199999999999, 1704067200000000000, // year boundary
+	-9223372036854775808, -9223372036854775807, 9223372036854775807, 9223372036854775806, // 1677 / 2262
+	-8520336000000000000, -2208988800000000000, -2208988800000000001, 7258118400000000000, 9214646400000000000} // 1700, 1900, 2200, 2262
 
 // ---------------------------------------------------------------- one operation of a workload
 type c26Op struct {
@@ -323,6 +387,16 @@ func c26MethodNames() []string {
 	return out
 }
 
+func c26ZoneTok(z string) string { return c27Tok([]byte(z)) }
+
+// one T line: an entry whose timestamp is the instant ts held in the process-local zone z
+func c26TLine(r *Rng, z string, fmtS string, ts int64) string {
+	e := c27RandEntry(r, fmtS == "json", true)
+	e.Timestamp = time.Unix(0, ts)
+	_, off := time.Unix(0, ts).In(c26LoadZone(z)).Zone()
+	return strings.Join([]string{"T", c26ZoneTok(z), fmtS, strconv.Itoa(off), c27ShowEntry(e)}, " ")
+}
+
 func (c26) Gen(r *Rng, tier string, n int) []string {
 	var cases []string
 	names := c26MethodNames()
@@ -333,35 +407,68 @@ func (c26) Gen(r *Rng, tier string, n int) []string {
 	}
 	cases = append(cases, "MS "+strings.Join(toks, ","))
 	groups := []string{"C26-unaudited-object-tagging", "C26-unaudited-storage-class-transition", "C26-unaudited-bucket-notification"}
-	for i := 0; i < n; i++ {
-		fmtS := r.Pick([]string{"bin", "json"})
-		k := 1 + r.Intn(14)
-		mode := "seq"
-		switch r.Intn(6) {
-		case 0, 1:
-			mode = "conc"
-		case 2:
-			mode = "restart:" + strconv.Itoa(r.Intn(k+1))
-		}
-		g := ""
-		if r.Chance(12) {
-			g = groups[r.Intn(3)]
-		}
-		cases = append(cases, strings.Join([]string{"W", fmtS, mode, c26Workload(r, k, g)}, " "))
-	}
-	// long workloads crossing grounding blocks (1000 LOG entries = 500 operations)
-	big := []struct {
+	// long workloads crossing grounding blocks (1000 LOG entries = 500 operations): one per zone, first in its group
+	type bigT struct {
 		f, mode string
 		ops     int
-	}{{"bin", "seq", 1300}, {"json", "conc", 1300}, {"bin", "restart:700", 1300}, {"json", "restart:500", 1010}, {"bin", "conc", 1600}, {"json", "seq", 1001}}
-	if tier == "thorough" {
-		big = append(big, []struct {
-			f, mode string
-			ops     int
-		}{{"bin", "conc", 5200}, {"json", "restart:2500", 5200}, {"bin", "restart:1000", 3000}, {"json", "conc", 4100}}...)
 	}
-	for _, b := range big {
-		cases = append(cases, strings.Join([]string{"W", b.f, b.mode, c26Workload(r, b.ops, "")}, " "))
+	big := []bigT{{"bin", "seq", 1300}, {"json", "conc", 1300}, {"bin", "restart:700", 1300}, {"json", "restart:500", 1010}, {"bin", "conc", 1600}, {"json", "seq", 1001}}
+	if tier == "thorough" {
+		big = append(big, []bigT{{"bin", "conc", 5200}, {"json", "restart:2500", 5200}, {"bin", "restart:1000", 3000}, {"json", "conc", 4100},
+			{"json", "restart:700", 1300}, {"bin", "restart:500", 1010}}...)
+	}
+	// the cases of one zone are contiguous (the zone gate lets them run in parallel); zone order rotates with the seed
+	rot := r.Intn(len(c26Zones))
+	for zi := range c26Zones {
+		z := c26Zones[(zi+rot)%len(c26Zones)]
+		for bi, b := range big {
+			if bi%len(c26Zones) == zi {
+				cases = append(cases, strings.Join([]string{"W", b.f, b.mode, c26ZoneTok(z), c26Workload(r, b.ops, "")}, " "))
+			}
+		}
+		per := n / len(c26Zones)
+		for i := 0; i < per; i++ {
+			fmtS := r.Pick([]string{"bin", "json"})
+			if r.Chance(30) {
+				ts := c26Instants[r.Intn(len(c26Instants))]
+				if r.Chance(35) {
+					ts = 1500000000000000000 + int64(r.Next()%400000000000000000)
+					if r.Chance(30) {
+						ts -= ts % 1000000000 // whole second
+					}
+				}
+				cases = append(cases, c26TLine(r, z, fmtS, ts))
+				continue
+			}
+			k := 1 + r.Intn(14)
+			mode := "seq"
+			switch r.Intn(6) {
+			case 0, 1:
+				mode = "conc"
+			case 2, 3:
+				mode = "restart:" + strconv.Itoa(r.Intn(k+1))
+			}
+			g := ""
+			if r.Chance(12) {
+				g = groups[r.Intn(3)]
+			}
+			cases = append(cases, strings.Join([]string{"W", fmtS, mode, c26ZoneTok(z), c26Workload(r, k, g)}, " "))
+		}
+	}
+	// written in one zone, reopened / verified in another (exclusive cases: they switch time.Local themselves)
+	nx := 12
+	if tier == "thorough" {
+		nx = 60
+	}
+	for i := 0; i < nx; i++ {
+		a, b := r.Pick(c26Zones), r.Pick(c26Zones)
+		k := 2 + r.Intn(12)
+		ops := k
+		if i == 0 {
+			ops = 1100
+			k = 1100
+		}
+		cases = append(cases, strings.Join([]string{"W", r.Pick([]string{"bin", "json"}), "restart:" + strconv.Itoa(1+r.Intn(k-1)), c26ZoneTok(a + ">" + b), c26Workload(r, ops, "")}, " "))
 	}
 	return cases
 }
@@ -403,6 +510,7 @@ func (c26) Run(in string, scratch string) Result {
 	f := strings.Split(in, " ")
 	switch f[0] {
 	case "M":
+		defer c26EnterZone("")()
 		name := string(c27Untok(f[1]))
 		var clock int64
 		cs := &c26CountSink{}
@@ -443,12 +551,83 @@ func (c26) Run(in string, scratch string) Result {
 	case "MS":
 		return Result{Out: "COMPLETE", Oracle: "OK", Tags: []string{"method-set"}}
 	case "W":
-		return c26RunWorkload(f[1], f[2], f[3], scratch)
+		if len(f) == 4 { // legacy form: whatever zone the process is in
+			return c26RunWorkload(f[1], f[2], "", f[3], scratch)
+		}
+		return c26RunWorkload(f[1], f[2], string(c27Untok(f[3])), f[4], scratch)
+	case "T":
+		return c26RunT(string(c27Untok(f[1])), f[2], f[3], f[4])
 	}
 	return Result{Out: "BADLINE", Oracle: "FAIL:bad case line", Tags: []string{"bad-case"}}
 }
 
-func c26RunWorkload(fmtS, mode, body, scratch string) Result {
+// T: encode + decode one entry whose timestamp is time.Unix(0, ts) in the process-local zone
+func c26RunT(zone, fmtS, offS, ent string) Result {
+	leave := c26EnterZone(zone)
+	defer leave()
+	jsonForm := fmtS == "json"
+	tags := []string{"timestamp", "fmt-" + fmtS, "zone-" + zone}
+	e0 := c27ParseEntry(ent)
+	ts := e0.Timestamp.UnixNano()
+	e0.Timestamp = time.Unix(0, ts) // what time.Now() gives: Location = time.Local
+	_, off := e0.Timestamp.Zone()
+	if strconv.Itoa(off) != offS {
+		return Result{Out: "BADOFF", Oracle: "FAIL:harness: zone offset differs from the case line", Tags: append(tags, "bad-case")}
+	}
+	if off != 0 {
+		tags = append(tags, "off-nonzero")
+	}
+	if ts%1000000000 == 0 {
+		tags = append(tags, "whole-second")
+	}
+	var buf bytes.Buffer
+	if err := c27Ser(jsonForm).Encode(&buf, e0); err != nil {
+		return Result{Out: "ERR", Oracle: "FAIL:encoder refused a well-formed entry: " + err.Error(), Tags: tags}
+	}
+	enc := c27Tok(buf.Bytes())
+	if jsonForm {
+		enc = c27ShowJSONDoc(buf.Bytes())
+	}
+	d, err := c27Ser(jsonForm).NewDecoder(bytes.NewReader(buf.Bytes())).Decode()
+	if err != nil {
+		return Result{Out: enc + " DECERR", Oracle: "FAIL:decode(encode(e)) fails: " + err.Error(), Tags: tags}
+	}
+	_, doff := d.Timestamp.Zone()
+	out := enc + " " + c27ShowEntry(d) + "@" + strconv.Itoa(doff)
+	var fails []string
+	if d.Timestamp.UnixNano() != ts || !d.Timestamp.Equal(e0.Timestamp) {
+		fails = append(fails, fmt.Sprintf("decode(encode(e)) changes the instant: %d -> %d (zone %s)", ts, d.Timestamp.UnixNano(), zone))
+	}
+	if !c27EntryEq(d, e0) {
+		fails = append(fails, "decode(encode(e)) != e")
+	}
+	if in, ok := c27HashInput(e0); ok {
+		want := sha512.Sum512(in)
+		if !bytes.Equal(e0.CalculateHash(), want[:]) || !bytes.Equal(d.CalculateHash(), want[:]) {
+			fails = append(fails, "entry hash depends on more than the instant (zone "+zone+")")
+		}
+	}
+	var buf2 bytes.Buffer
+	if err := c27Ser(jsonForm).Encode(&buf2, d); err != nil || !bytes.Equal(buf2.Bytes(), buf.Bytes()) {
+		fails = append(fails, "re-encoding the decoded entry gives different bytes")
+	}
+	or := "OK"
+	if len(fails) > 0 {
+		or = "FAIL:" + fails[0]
+	}
+	return Result{Out: out, Oracle: or, Tags: tags}
+}
+
+func c26RunWorkload(fmtS, mode, zone, body, scratch string) Result {
+	zoneA, zoneB := zone, zone
+	{
+		leave := c26EnterZone(zone)
+		defer leave()
+		if a, b, ok := strings.Cut(zone, ">"); ok { // exclusive case: we own time.Local
+			zoneA, zoneB = a, b
+			time.Local = c26LoadZone(zoneA)
+		}
+	}
 	jsonForm := fmtS == "json"
 	var ops []*c26Op
 	for _, t := range strings.Split(body, ";") {
@@ -460,6 +639,11 @@ func c26RunWorkload(fmtS, mode, body, scratch string) Result {
 	var file []byte
 	var stamps []int64
 	tags := []string{"workload", "fmt-" + fmtS, "mode-" + strings.SplitN(mode, ":", 2)[0]}
+	zoneTag := "zone-" + zone
+	if strings.Contains(zone, ">") {
+		zoneTag = "zone-switch"
+	}
+	var midFail string
 	switch {
 	case mode == "seq" || mode == "conc":
 		w := &c26StampWriter{clock: &clock}
@@ -507,6 +691,14 @@ func c26RunWorkload(fmtS, mode, body, scratch string) Result {
 			c26Call(mw, o)
 		}
 		mw.Stop(context.Background())
+		if zoneA != zoneB {
+			time.Local = c26LoadZone(zoneB) // the restarted process runs in another zone
+		}
+		if mid, _ := os.ReadFile(path); true { // verify before reopening
+			if v := c27Verify(mid, jsonForm, true, true); !strings.HasPrefix(v, "OK") {
+				midFail = "log written before the restart does not verify: " + v
+			}
+		}
 		mw, err = open()
 		if err != nil {
 			return Result{Out: "REOPENERR", Oracle: "FAIL:restart refused the log the middleware wrote: " + err.Error(), Tags: tags}
@@ -604,6 +796,9 @@ func c26RunWorkload(fmtS, mode, body, scratch string) Result {
 	}
 	// ---- direct oracle
 	var fails []string
+	if midFail != "" {
+		fails = append(fails, midFail)
+	}
 	if decErr != "" {
 		fails = append(fails, "log does not decode: "+decErr)
 	}
@@ -666,7 +861,7 @@ func c26RunWorkload(fmtS, mode, body, scratch string) Result {
 			nG++
 		}
 	}
-	tags = append(tags, "g"+strconv.Itoa(min(nG, 3)), "ops"+strconv.Itoa(min(len(ops)/5*5, 15)))
+	tags = append(tags, "g"+strconv.Itoa(min(nG, 3)), "ops"+strconv.Itoa(min(len(ops)/5*5, 15)), zoneTag)
 	for t := range kfTags {
 		tags = append(tags, t)
 	}
